@@ -117,7 +117,9 @@ def gen_source(rng):
                             "vs 'text';", "vt $vs;", "vu \"$nope + 1\";", "vz \"2 * $va\";",
                             # results of the functions the reader makes available in expressions (numpy scalars, arrays, floats)
                             "vm \"mean($vf)\";", "vsd \"std($vf)\";", "vq \"sqrt($va)\";", "vp \"$va * pi\";", "vo \"ones(2) * $va\";",
-                            "vw \"sum($vf) + len($vf)\";", "vr \"round($va / 7, 3)\";", "vh \"$va / 2\";", "vmx \"max($vf) - min($vf)\";"], rng.randint(1, 8))
+                            "vw \"sum($vf) + len($vf)\";", "vr \"round($va / 7, 3)\";", "vh \"$va / 2\";", "vmx \"max($vf) - min($vf)\";",
+                            # expressions whose evaluation fails (division by zero, wrong operand types, domain errors)
+                            "vzero 0;", "vdz \"1 / $vzero\";", "vty \"$vf / 2\";", "vdom \"sqrt(-$va - 1)\";"], rng.randint(1, 8))
     text = c12.render(rng, items)
     if exprs:
         text += ("\n" if not text.endswith("\n") else "") + "\n".join(exprs) + "\n"
